@@ -329,9 +329,12 @@ fn makediff_pairs(_args: &[String]) {
 fn line_shapes() -> Vec<(String, Vec<&'static str>, &'static str)> {
     let mut out = vec![];
     for lead in ["", "\t", " "] {
-        for code in 0..4usize {
-            for strlen in [0usize, 3] {
-                for com in [0usize, 3, 4] {
+        // code: number of code characters; 10 + n = n characters, a tab that is NOT on a tab
+        // stop, one more character
+        for code in [0usize, 1, 2, 3, 11, 12] {
+            // strlen 4 / com 5: a tab inside the string / comment, followed by a character
+            for strlen in [0usize, 3, 4] {
+                for com in [0usize, 3, 4, 5] {
                     for trail in ["", " ", "  ", "\t"] {
                         let mut text = String::new();
                         let mut syms: Vec<&'static str> = vec![];
@@ -339,17 +342,25 @@ fn line_shapes() -> Vec<(String, Vec<&'static str>, &'static str)> {
                             text.push(c);
                             syms.push(if c == '\t' { "tab" } else { "sp" });
                         }
-                        for _ in 0..code {
+                        for _ in 0..code % 10 {
+                            text.push('x');
+                            syms.push("x");
+                        }
+                        if code >= 10 {
+                            text.push('\t');
+                            syms.push("tab");
                             text.push('x');
                             syms.push("x");
                         }
                         if strlen > 0 {
                             text.push('"');
                             syms.push("q");
-                            for _ in 0..strlen - 2 {
-                                text.push('s');
-                                syms.push("q");
+                            if strlen == 4 {
+                                text.push('\t');
+                                syms.push("qtab");
                             }
+                            text.push('s');
+                            syms.push("q");
                             text.push('"');
                             syms.push("q");
                         }
@@ -358,7 +369,11 @@ fn line_shapes() -> Vec<(String, Vec<&'static str>, &'static str)> {
                             text.push_str("//");
                             syms.push("k");
                             syms.push("k");
-                            for _ in 0..com - 2 {
+                            if com == 5 {
+                                text.push('\t');
+                                syms.push("ktab");
+                            }
+                            for _ in 0..(if com == 5 { 1 } else { com - 2 }) {
                                 text.push('c');
                                 syms.push("k");
                             }
@@ -429,7 +444,7 @@ fn linescan(args: &[String]) {
         writeln!(out, "{}", rec).unwrap();
     };
     for i in 0..shapes.len() {
-        for mw in [4usize, 6] {
+        for mw in [4usize, 6, 9] {
             for ts in [1usize, 2, 4] {
                 for (eoo, eou) in [(true, true), (true, false), (false, true), (false, false)] {
                     emit(&[i], mw, ts, eoo, eou, vec![], None, 0);
